@@ -21,6 +21,53 @@ def make_system(arg):
                         'start': arg[3] if len(arg) > 3 else None})
 
 
+@common.job
+def stale_twins(_arg):
+    """node objects of the generation before regenerate_graph() compare equal (dataclass ==) to the edge-less nodes
+    that took their place: calls that are given such an object must not act on the live twin"""
+    import copy
+    from .. import langs, refgraph
+    from ..langs import S, asset, assoc, spec, step
+    from maltoolbox.attackgraph import AttackGraph, Attacker
+    from maltoolbox.model import Model
+    sp = spec([asset('Hh', steps=[step('connect', 'or', reaches=[S('access')]), step('access', 'or'), step('backdoor', 'or'),
+                                  step('spare', 'and')])],
+              [assoc('Ln', 'Hh', 'aa', '*', '*', 'bb', 'Hh')], lang_id='org.verif.twins')
+    fx = langs.fixture(sp)
+    viols, n = [], 0
+    for n_assets in (1, 2):
+        for with_attacker in (False, True):
+            m = Model('m', fx.factory)
+            for i in range(n_assets):
+                m.add_asset(fx.ns.Hh(name=f'h{i}'))
+            g = AttackGraph(fx.lang_graph, m)
+            old = list(g.nodes)
+            for k, stale in enumerate(old):
+                g.regenerate_graph()
+                if with_attacker:
+                    g.add_attacker(Attacker(name='att', entry_points=[], reached_attack_steps=[]),
+                                   entry_points=[x.id for x in g.nodes], reached_attack_steps=[g.nodes[k].id])
+                before = refgraph.observe(g)
+                n += 1
+                try:
+                    g.remove_node(stale)
+                except Exception:  # noqa: BLE001
+                    pass
+                case = {'scenario': 'remove_node(node object of the previous generation)', 'assets': n_assets,
+                        'node': stale.full_name, 'attacker': with_attacker}
+                if refgraph.observe(g) != before:
+                    viols.append(common.Violation('remove_node:stale_equal_twin:changed_the_graph',
+                                                  'remove_node was given a node of the previous generation and acted on the node that took its place',
+                                                  case=case).to_json())
+                    break
+                try:
+                    refgraph.invariants(g)
+                except common.Violation as v:
+                    viols.append(common.Violation('remove_node:stale_equal_twin:' + v.key, v.what, case=case).to_json())
+                    break
+    return {'transitions': n, 'stale_twin_calls': n}, viols
+
+
 def run(tier, seed, prop=PROP, plans=None, rule_extra=''):
     res = common.Result(prop, tier, seed, 'model_checking')
     res.rule = ('level-synchronous BFS over histories of AttackGraph / Attacker / analyser calls on real graphs '
@@ -36,6 +83,10 @@ def run(tier, seed, prop=PROP, plans=None, rule_extra=''):
         for k in sorted(reps)[:2]:
             res.sample({'language': lang, 'alphabet': alpha, 'history': reps[k][0]})
         res.count('distinct_nontrivial', len(reps) - 1)
+    if prop == PROP:
+        for stats, viols in common.pmap(stale_twins, [0]):
+            res.merge_counts(stats)
+            res.add_violations(viols)
     res.count('traces_validated_against_impl', res.counters.get('transitions', 0))
     res.count('evaluations', res.counters.get('transitions', 0))
     return res.finish()
